@@ -212,13 +212,18 @@ def run(ctx, rep):
     rep.assume("features nightly,serde (protected memory exists only with `nightly`)")
     t0 = time.time()
     cs = cells()
-    hdir = os.path.join(ctx.verif, ".work", "witness-%s" % ctx.digest)
+    hdir = os.path.join(ctx.verif, ".work", "witness-%s-%d" % (ctx.digest, os.getpid()))    # per run: two runs on identical trees must not share it
     tgt = os.environ.get("VERIF_TARGET_DIR") or os.path.join(ctx.verif, ".work", "target")
     tgt = tgt + "-witness"
     twin_ranges, mis_ranges = build_harness(ctx, cs, hdir)
     rep.floor("type-state cells", len(cs), 60)
     # twins
     rc, msgs, dep_error, err = cargo_check(hdir, ["--lib"], tgt)
+    tries = 0
+    while rc != 0 and not msgs and not dep_error and tries < 3:
+        tries += 1
+        time.sleep(2 * tries)
+        rc, msgs, dep_error, err = cargo_check(hdir, ["--lib"], tgt)
     if dep_error or (rc != 0 and not msgs):
         rep.violation("BUILD", "witness harness", "the harness (or /repo with nightly,serde) does not build: %s" % err[-300:])
         shutil.rmtree(hdir, ignore_errors=True)
@@ -237,6 +242,16 @@ def run(ctx, rep):
                key="TWIN|%s" % cid)
     # misuse
     rc2, msgs2, dep_error2, err2 = cargo_check(hdir, ["--example", "misuse"], tgt)
+    tries = 0
+    while rc2 != 0 and not msgs2 and not dep_error2 and tries < 3:
+        # cargo failed without a single compiler message (killed / interrupted under load): not a verdict
+        tries += 1
+        time.sleep(2 * tries)
+        rc2, msgs2, dep_error2, err2 = cargo_check(hdir, ["--example", "misuse"], tgt)
+    if rc2 != 0 and not msgs2 and not dep_error2:
+        rep.violation("BUILD", "witness harness (misuse)", "cargo check of the misuse programs failed without compiler messages (rc=%s): %s" % (rc2, err2[-300:]))
+        shutil.rmtree(hdir, ignore_errors=True)
+        return
     if dep_error2:
         rep.violation("BUILD", "witness harness (misuse)", "dependency build error: %s" % err2[-300:])
         shutil.rmtree(hdir, ignore_errors=True)
